@@ -228,6 +228,15 @@ class OpenModel:
                         out.add("eof")
                     elif truth:
                         out.add("other-kind:" + kinds[0][2])
+            # a search over bytes with a `byte != 0` (or `== 0`) predicate: position/find/any say "a non-zero byte exists"
+            m = re.search(r"iter::Iterator>?::(position|rposition|find|any|all)$", cpath(t))
+            if m and a and isinstance(a[-1], tuple) and a[-1] and a[-1][0] == "closure":
+                kind = self._byte_pred(a[-1][1])
+                which = m.group(1)
+                if kind == "ne0" and ((which in ("position", "rposition", "find") and v in ("Some", "Continue")) or (which == "any" and v == "true")):
+                    out.add("nonzero")
+                if kind == "eq0" and which == "all" and v == "false":
+                    out.add("nonzero")
             if a and is_field(a[0], "truncate_incomplete_record"):
                 # Option::unwrap_or(config.truncate_incomplete_record, default)
                 out.add("can_trunc" if v == "true" else "no_trunc")
@@ -251,6 +260,24 @@ class OpenModel:
             if isinstance(pe, tuple) and pe[0] == "var" and v == "None":
                 out.add("var_none:%s_%s" % (pe[1], pe[2]))
         return out
+
+    def _byte_pred(self, ckey):
+        """'ne0' / 'eq0' when the closure is nothing but a comparison of a u8 with the constant 0"""
+        b = self.g.prog.bodies.get(ckey)
+        if not b or any(blk["term"]["k"] == "call" for blk in b["blocks"] if not blk.get("cleanup")):
+            return None
+        cmps = []
+        for blk in b["blocks"]:
+            for st in blk["stmts"]:
+                if st["k"] == "assign" and st["rv"]["k"] == "binop" and st["rv"]["op"] in ("Ne", "Eq"):
+                    x, y = st["rv"]["a"], st["rv"]["b"]
+                    for p_, q_ in ((x, y), (y, x)):
+                        if q_.get("k") == "const" and q_.get("int") == "0" and p_.get("k") in ("copy", "move") \
+                                and b["locals"][p_["p"]["l"]]["ty"] in ("u8", "&u8"):
+                            cmps.append(st["rv"]["op"])
+        if len(cmps) == 1:
+            return "ne0" if cmps[0] == "Ne" else "eq0"
+        return None
 
     def _is_byte(self, o):
         n, si = o[1], o[2]
